@@ -277,6 +277,8 @@ MUTANTS = [
     ("singular_assembler_drops_parameters", "bempp_cl/core/singular_assembler.py", "super().__init__(domain, dual_to_range, parameters)", "super().__init__(domain, dual_to_range)", 0, ["C18", "C07"]),
     ("singular_weights_offsets_uint16", "bempp_cl/core/singular_assembler.py", "        weights_offsets = _np.empty(self.index_count[\"all\"], dtype=\"uint32\")", "        weights_offsets = _np.empty(self.index_count[\"all\"], dtype=\"uint16\")", 0, ["C01"]),
     ("singular_test_offsets_int16", "bempp_cl/core/singular_assembler.py", "        test_offsets = _np.empty(self.index_count[\"all\"], dtype=\"uint32\")", "        test_offsets = _np.empty(self.index_count[\"all\"], dtype=_np.int16)", 0, ["C01", "C03"]),
+    ("coefficients_pack_promotion_after_loop", "bempp_cl/api/assembly/blocked_operator.py", "    for item in grid_funs:\n        input_type = _np.promote_types(input_type, item.coefficients.dtype)\n        vec_len += item.space.global_dof_count\n", "    for item in grid_funs:\n        vec_len += item.space.global_dof_count\n    input_type = _np.promote_types(input_type, item.coefficients.dtype)\n", 0, ["C14", "C15"]),
+    ("triangle_rule_lower_bound_dropped", "bempp_cl/api/integration/triangle_gauss.py", "    if order < 1 or order > 20:\n", "    if order > 20:\n", 0, ["C12"]),
     ("potential_rule_in_closure_global", "bempp_cl/core/numba_assemblers.py", "    def evaluator(x):\n        \"\"\"Actually evaluate the potential.\"\"\"\n", "    def evaluator(x):\n        \"\"\"Actually evaluate the potential.\"\"\"\n        quad_points, quad_weights = rule(parameters.quadrature.regular)\n", 0, ["C18"]),
 ]
 
@@ -286,6 +288,7 @@ EQUIVALENTS = [
     ('eq_dense_add_copy_then_in_place', 'bempp_cl/api/assembly/discrete_boundary_operator.py', "            return DenseDiscreteBoundaryOperator(self.to_dense() + other.to_dense())", "            total = self.to_dense().copy()\n            total += other.to_dense()\n            return DenseDiscreteBoundaryOperator(total)", 0, ['C18', 'C14']),
     ('eq_dense_assembler_parameters_keyword', 'bempp_cl/core/dense_assembler.py', "super().__init__(domain, dual_to_range, parameters)", "super().__init__(domain, dual_to_range, parameters=parameters)", 0, ['C18', 'C07']),
     ('eq_singular_offsets_int64', 'bempp_cl/core/singular_assembler.py', "        trial_offsets = _np.empty(self.index_count[\"all\"], dtype=\"uint32\")", "        trial_offsets = _np.empty(self.index_count[\"all\"], dtype=\"int64\")", 0, ['C01']),
+    ('eq_triangle_rule_try_after_lower_bound', 'bempp_cl/api/integration/triangle_gauss.py', "    if order < 1 or order > 20:\n        raise ValueError(f\"Symmetric Gauss quadrature order must be between 1 and 20. Provided: {order}\")\n    npoints = points_per_order[order - 1]\n", "    if order < 1:\n        raise ValueError(f\"Symmetric Gauss quadrature order must be between 1 and 20. Provided: {order}\")\n    try:\n        npoints = points_per_order[order - 1]\n    except IndexError:\n        raise ValueError(f\"Symmetric Gauss quadrature order must be between 1 and 20. Provided: {order}\")\n", 0, ['C12']),
     ('eq_rwg_count_local', 'bempp_cl/api/space/maxwell_spaces.py', '                if len(supported_neighbors) == 2:\n                    if edge_dofs[edge_index]:', '                n_sup = len(supported_neighbors)\n                if n_sup == 2:\n                    if edge_dofs[edge_index]:', 0, ['C09']),
     ('eq_rwg_sentinel_full', 'bempp_cl/api/space/maxwell_spaces.py', '    edge_dofs = -_np.ones(number_of_edges, dtype=_np.int32)', '    edge_dofs = _np.full(number_of_edges, -1, dtype=_np.int32)', 0, ['C09', 'C16']),
     ('eq_p1_interior_inline', 'bempp_cl/api/space/scalar_spaces.py', '            node_is_interior = len(non_support_neighbors) == 0 and not grid_data.vertex_on_boundary[vertex]\n            if include_boundary_dofs or node_is_interior:', '            if include_boundary_dofs or (len(non_support_neighbors) == 0 and not grid_data.vertex_on_boundary[vertex]):', 0, ['C09']),
